@@ -275,6 +275,7 @@ type Invocation struct {
 	AnswerStep  int
 	ArrivalAt   time.Duration
 	ArrivalStep int
+	Extra       bool // a concurrent caller outside the plan
 }
 
 // Invoke posts an event to the front door (new connection, like curl).
